@@ -111,10 +111,10 @@ Proof.
   induction ps as [|p ps IH]; intros last H; [exact H|]. destruct p; try exact H. cbn [drop_blank32]. destruct (c =? 32); [|exact H].
   cbn [pieces_ok] in H. apply andb_true_iff in H. apply IH. apply H.
 Qed.
-Lemma drop_blank32_supported : forall ps, pieces_supported ps = true -> pieces_supported (drop_blank32 ps) = true.
+Lemma drop_blank32_supported : forall ps, pieces_good ps -> pieces_good (drop_blank32 ps).
 Proof.
   induction ps as [|p ps IH]; intro H; [exact H|]. destruct p; try exact H. cbn [drop_blank32]. destruct (c =? 32); [|exact H].
-  unfold pieces_supported in *. cbn [forallb] in H. apply IH. exact H.
+  apply IH. inversion H; assumption.
 Qed.
 Lemma start_ok_trail : forall txt, start_ok txt = true -> trail_none_ok txt = true.
 Proof.
@@ -122,7 +122,7 @@ Proof.
   apply andb_true_iff in H. destruct H as [H H45]. apply andb_true_iff in H. destruct H as [H _]. apply andb_true_iff in H. destruct H as [Hc Hw].
   rewrite Hc, H45. replace (wsP false c) with false; [reflexivity|]. apply negb_true_iff in Hw. unfold wsP in *. lia.
 Qed.
-Lemma trail_ok_of_pieces : forall ps last, pieces_ok last ps = true -> pieces_supported ps = true -> trail_ok ps = true.
+Lemma trail_ok_of_pieces : forall ps last, pieces_ok last ps = true -> pieces_good ps -> trail_ok ps = true.
 Proof.
   intros ps last H HS. apply drop_blank32_ok in H. apply drop_blank32_supported in HS. unfold trail_ok.
   assert (HB : match drop_blank32 ps with PBlank c :: _ => (c =? 32) = false | _ => True end).
@@ -136,8 +136,8 @@ Proof.
     rewrite Hv'. cbn [andb]. destruct r as [|q r]; [reflexivity|]. destruct q; try discriminate. exact H2.
   - reflexivity.
   - cbn [pieces_ok] in H. apply andb_true_iff in H. destruct H as [H _]. apply andb_true_iff in H. destruct H as [H1 _].
-    rewrite follow_ok_take in H1. unfold pieces_supported in HS. cbn [forallb] in HS. apply andb_true_iff in HS. destruct HS as [HS _].
-    unfold pieces_text. cbn [flat_map piece_text]. apply start_ok_trail. apply (tok_start_ok t last _ HS H1).
+    rewrite follow_ok_take in H1. inversion HS as [|? ? HSt _]; subst. destruct HSt as [_ [_ [HSt _]]].
+    unfold pieces_text. cbn [flat_map piece_text]. apply start_ok_trail. apply (HSt last _ H1).
 Qed.
 
 Lemma lead_start_false : forall cs, forallb key_ok (map ckey cs) = true -> lead_start cs = false.
@@ -159,7 +159,7 @@ Section Lexing.
   Definition trail_keys (o : option comment) : list (bool * list char) := match o with Some c => [ckey c] | None => [] end.
 
   Lemma pop_raw_step : forall g t ps2 tk,
-    gap_wf false g = true -> (length g < F)%nat -> supported_kind t = true ->
+    gap_wf false g = true -> (length g < F)%nat -> tok_good t ->
     follow_ok (k_last tk) t (pieces_text ps2) = true -> trail_ok ps2 = true ->
     At (k_rd tk) (pieces_text (g ++ PLex t :: ps2)) ->
     exists tok tk', pop_raw d kws F true tk = (Ok (Some tok), tk') /\
@@ -168,14 +168,14 @@ Section Lexing.
       At (k_rd tk') (pieces_text (snd (after_trail ps2))) /\ k_last tk' = Some (t_kind t) /\ k_warn tk' = k_warn tk.
   Proof.
     intros g t ps2 tk Hg Hlen Hs Hfo Htr HA.
-    destruct (tok_start_ok t _ _ Hs Hfo) as [Hst Hne].
+    destruct Hs as [_ [_ [Hs1 Hs2]]]. destruct (Hs1 _ _ Hfo) as [Hst Hne].
     unfold pieces_text in HA. rewrite flat_map_app in HA. cbn [flat_map piece_text] in HA. fold (pieces_text g) in HA. fold (pieces_text ps2) in HA.
     unfold pop_raw.
     destruct (lead_gap d HD F HF (length g) g (tok_text t ++ pieces_text ps2) F [] (k_rd tk)) as [cs [r1 [E1 [HA1 EK]]]];
       [lia| |exact Hst|exact HA|exact Hlen|].
     { destruct (tok_text t ++ pieces_text ps2) eqn:E; [|exact Hg]. destruct (tok_text t); [congruence|discriminate]. }
     rewrite E1. cbn [app] in *.
-    destruct (pt_supported d HD F HF t (r_pos r1) (k_last tk) r1 _ Hs Hfo HA1) as [r2 [E2 HA2]]. rewrite E2.
+    destruct (Hs2 d HD F HF (r_pos r1) (k_last tk) r1 _ Hfo HA1) as [r2 [E2 HA2]]. rewrite E2.
     destruct (drop_blank32_text ps2) as [bl [Hbl Etx]]. rewrite Etx in HA2.
     unfold trail_ok in Htr. unfold after_trail.
     destruct (drop_blank32 ps2) as [|p g2] eqn:ED.
@@ -246,8 +246,8 @@ Proof.
   induction pre as [|p pre IH]; intros last ps L H; [exact H|]. cbn [lex_free forallb] in L. apply andb_true_iff in L. destruct L as [Lp L].
   cbn [app pieces_ok] in H. destruct p; try discriminate Lp; apply andb_true_iff in H; apply (IH _ _ L); apply H.
 Qed.
-Lemma supported_suffix : forall pre ps, pieces_supported (pre ++ ps) = true -> pieces_supported ps = true.
-Proof. intros pre ps H. unfold pieces_supported in *. rewrite forallb_app in H. apply andb_true_iff in H. apply H. Qed.
+Lemma supported_suffix : forall pre ps, pieces_good (pre ++ ps) -> pieces_good ps.
+Proof. intros pre ps H. unfold pieces_good in *. apply Forall_app in H. apply H. Qed.
 
 Section Lexing2.
   Variable d : list (list char).
@@ -261,7 +261,7 @@ Section Lexing2.
 
   Lemma lex_pieces_aux : forall n ps fuel tk,
     (length ps <= n)%nat -> (n < fuel)%nat -> (n < F)%nat ->
-    At (k_rd tk) (pieces_text ps) -> pieces_ok (k_last tk) ps = true -> pieces_supported ps = true -> k_warn tk = [] ->
+    At (k_rd tk) (pieces_text ps) -> pieces_ok (k_last tk) ps = true -> pieces_good ps -> k_warn tk = [] ->
     exists ts', lex d kws F true fuel tk = Done ts' [] /\
       map tok_kv ts' = map tok_kv (lex_toks ps) /\ flat_map tok_keys ts' = attached_keys (S n) ps.
   Proof.
@@ -275,10 +275,9 @@ Section Lexing2.
     - cbn [lex]. destruct (split_lex ps) as [g [[t ps2]|]] eqn:ES.
       + destruct (split_lex_some _ _ _ _ ES) as [-> Lg].
         destruct (pieces_ok_gap g _ t ps2 Lg Hok) as [Hg [Hk [Hfo [Hne Hok2]]]].
-        assert (Hs : supported_kind t = true).
-        { unfold pieces_supported in Hsup. rewrite forallb_app in Hsup. apply andb_true_iff in Hsup. destruct Hsup as [_ Hsup].
-          cbn [forallb] in Hsup. apply andb_true_iff in Hsup. apply Hsup. }
-        assert (Hs2 : pieces_supported ps2 = true).
+        assert (Hs : tok_good t).
+        { unfold pieces_good in Hsup. apply Forall_app in Hsup. destruct Hsup as [_ Hsup]. inversion Hsup as [|? ? Ht _]; subst. exact Ht. }
+        assert (Hs2 : pieces_good ps2).
         { change (g ++ PLex t :: ps2) with (g ++ [PLex t] ++ ps2) in Hsup. rewrite app_assoc in Hsup. apply (supported_suffix _ _ Hsup). }
         rewrite app_length in Hn. cbn [length] in Hn.
         assert (HgF : (length g < F)%nat) by (clear -Hn HnF; lia).
@@ -287,11 +286,11 @@ Section Lexing2.
           as [tok [tk' [E [Ek [Ev [El [Et [HA' [Hl' Hw']]]]]]]]].
         assert (Hls : lead_start (t_lead tok) = false) by (apply lead_start_false; rewrite El; exact Hk).
         rewrite (tk_pop_tok d F tk tok tk' F HF0 E Hls).
-        rewrite Ek. rewrite (supported_not_grave _ Hs).
+        rewrite Ek. rewrite (proj1 Hs).
         destruct (after_trail_suffix ps2) as [pre [Epre [Lpre Kpre]]].
         assert (Hok3 : pieces_ok (k_last tk') (snd (after_trail ps2)) = true).
         { rewrite Hl'. apply (pieces_ok_suffix pre); [exact Lpre|]. rewrite <- Epre. exact Hok2. }
-        assert (Hs3 : pieces_supported (snd (after_trail ps2)) = true).
+        assert (Hs3 : pieces_good (snd (after_trail ps2))).
         { apply (supported_suffix pre). rewrite <- Epre. exact Hs2. }
         assert (Hlen3 : (length (snd (after_trail ps2)) <= n)%nat).
         { assert (Hl2 : length ps2 = (length pre + length (snd (after_trail ps2)))%nat) by (rewrite Epre at 1; apply app_length).
